@@ -112,20 +112,11 @@ Proof. unfold nd. apply forallb_app. Qed.
 Lemma nd_repeat g n : kept g = true -> nd (repeat g n) = true.
 Proof. intros H. induction n; cbn [repeat nd forallb]; [reflexivity|]. fold (nd (repeat g n)). rewrite H, IHn. reflexivity. Qed.
 
-Lemma forallb_kept_repeat g n : kept g = true -> forallb kept (repeat g n) = true.
-Proof. exact (nd_repeat g n). Qed.
-
-Lemma map_nsnd_app a b : map nsnd (a ++ b) = map nsnd a ++ map nsnd b.
-Proof. apply map_app. Qed.
-
 Lemma map_nsnd_repeat g n : map nsnd (repeat g n) = repeat (nsnd g) n.
 Proof. induction n; cbn [repeat map]; congruence. Qed.
 
 Lemma map_norm_repeat it n : map norm (repeat it n) = repeat (norm it) n.
 Proof. induction n; cbn [repeat map]; congruence. Qed.
-
-Lemma map_norm_app a b : map norm (a ++ b) = map norm a ++ map norm b.
-Proof. apply map_app. Qed.
 
 (* the shape a caller sees of a callee proved wf_sim *)
 Lemma wf_sim_ok_inv {A} (m : WF (A * merror)) items (a : A) : wf_sim m (Ok (items, a)) ->
@@ -141,3 +132,133 @@ Proof. destruct m as [l o]. cbn [wf_sim snd]. intros ->. eauto. Qed.
 
 Lemma werr_not_nil e c : werr e = Some c -> merror_is_nil e = false.
 Proof. destruct e; cbn; congruence. Qed.
+
+(* ---- a conditional block whose two branches fall through is kept symbolic: no case split ---- *)
+
+Lemma wbind_if {R A B} (c : bool) la (va : A) lb vb (k : A -> WM R B) :
+  wbind (if c then (la, WVal va) else (lb, WVal vb)) k = wbind ((if c then la else lb), WVal (if c then va else vb)) k.
+Proof. destruct c; reflexivity. Qed.
+
+Lemma wbind_if_add {R B} (c : bool) la (va : Z) lb vb k (K : Z -> WM R B) : va = vb + k ->
+  wbind (if c then (la, WVal va) else (lb, WVal vb)) K = wbind ((if c then la else lb), WVal (vb + (if c then k else 0))) K.
+Proof. intros ->. destruct c; [reflexivity|]. rewrite Z.add_0_r. reflexivity. Qed.
+
+Lemma snd_if {A B} (c : bool) (p q : A * B) : snd (if c then p else q) = if c then snd p else snd q.
+Proof. destruct c; reflexivity. Qed.
+Lemma fst_if {A B} (c : bool) (p q : A * B) : fst (if c then p else q) = if c then fst p else fst q.
+Proof. destruct c; reflexivity. Qed.
+Lemma if_same {A} (c : bool) (a : A) : (if c then a else a) = a.
+Proof. destruct c; reflexivity. Qed.
+
+(* equality of item lists up to norm, proved constructor by constructor *)
+Definition ieq (l : list gitem) (m : list witem) : Prop := map nsnd l = map norm m.
+Lemma ieq_nil : ieq [] []. Proof. reflexivity. Qed.
+Lemma ieq_cons g it l m : nsnd g = norm it -> ieq l m -> ieq (g :: l) (it :: m).
+Proof. unfold ieq. cbn [map]. intros -> ->. reflexivity. Qed.
+Lemma ieq_app l1 m1 l2 m2 : ieq l1 m1 -> ieq l2 m2 -> ieq (l1 ++ l2) (m1 ++ m2).
+Proof. unfold ieq. rewrite !map_app. intros -> ->. reflexivity. Qed.
+Lemma ieq_if (c : bool) a a' b b' : ieq a a' -> ieq b b' -> ieq (if c then a else b) (if c then a' else b').
+Proof. destruct c; auto. Qed.
+Lemma ieq_repeat g it n m : nsnd g = norm it -> n = m -> ieq (repeat g n) (repeat it m).
+Proof. unfold ieq. intros H ->. rewrite map_nsnd_repeat, map_norm_repeat, H. reflexivity. Qed.
+Lemma nd_nil : nd [] = true. Proof. reflexivity. Qed.
+Lemma nd_cons g l : kept g = true -> nd l = true -> nd (g :: l) = true.
+Proof. unfold nd. cbn [forallb]. intros -> ->. reflexivity. Qed.
+Lemma nd_app' a b : nd a = true -> nd b = true -> nd (a ++ b) = true.
+Proof. rewrite nd_app. intros -> ->. reflexivity. Qed.
+Lemma nd_if (c : bool) a b : nd a = true -> nd b = true -> nd (if c then a else b) = true.
+Proof. destruct c; auto. Qed.
+
+(* ---- tactics ----
+   hooks the files that know the hand models redefine with ::=
+     wmodel_cbn     reduce the model side after a case split (res_bind, need, ...)
+     wmodel_unfold  unfold model helpers in front of the final comparison
+     wcall1         replace the exposed call of a translated writer by the shape its lemma gives *)
+Ltac wmodel_cbn := cbn [res_map res_bind].
+Ltac wmodel_unfold := idtac.
+Ltac wcall1 := fail.
+
+Ltac wdone := wmodel_cbn; cbn [wf_sim snd]; first [reflexivity | eauto].
+
+Ltac strip vb t :=
+  match t with
+  | vb + ?k => k
+  | ?u + ?k => let u' := strip vb u in constr:(u' + k)
+  end.
+Ltac wif :=
+  match goal with
+  | |- context [wbind (if ?c then (?la, WVal ?va) else (?lb, WVal ?vb)) ?K] =>
+      first [ let k := strip vb va in rewrite (wbind_if_add c la va lb vb k K) by ring
+            | rewrite (wbind_if c la va lb vb K) ]
+  end.
+(* evaluate as far as possible; blocks that fall through on both sides become symbolic *)
+Ltac wsym := repeat (wsimpl; unfold wret; repeat wif); wsimpl.
+
+(* the pattern variables ?A ?B ?k cannot capture a term that mentions a variable bound further out, so these match the
+   EXPOSED block only (the one evaluation is stuck on), not the blocks still under the binders of later continuations *)
+Ltac wflag :=
+  match goal with |- context [wbind (if ?c then ?A else ?B) ?k] =>
+    let C := fresh "C" in destruct c eqn:C; wmodel_cbn end.
+Ltac wneed1 :=
+  match goal with |- context [wbind (wneed ?o) ?k] =>
+    let x := fresh "x" in destruct o as [x|]; [| wsimpl; wdone]; wmodel_cbn; wsimpl end.
+
+Ltac wcallee H :=
+  let l := fresh "l" in let E := fresh "E" in let Hn := fresh "Hn" in let Hd := fresh "Hd" in
+  destruct (wf_sim_ok_inv _ _ _ H) as (l & E & Hn & Hd); rewrite E; clear E.
+
+(* a callee that can fail: its model result decides *)
+Ltac wcall_res H :=
+  let HX := fresh "HX" in pose proof H as HX;
+  match type of HX with wf_sim _ ?r =>
+    destruct r as [[? ?]|?|] eqn:?;
+    [ wcallee HX; wsimpl
+    | let lx := fresh in let ax := fresh in let ex := fresh in let EX := fresh in let Hx := fresh in
+      destruct (wf_sim_err_inv _ _ HX) as (lx & ax & ex & EX & Hx); rewrite EX; wsimpl;
+      rewrite (werr_not_nil _ _ Hx); wsimpl; wmodel_cbn; cbn [wf_sim snd]; eauto
+    | let lx := fresh in let EX := fresh in destruct (wf_sim_panic_inv _ HX) as (lx & EX); rewrite EX; wsimpl; wdone ]
+  end.
+
+Ltac wstep := repeat (wsym; first [wflag | wneed1 | wcall1]); wsym.
+
+Ltac whyps :=
+  repeat match goal with
+  | H : ?x = true |- context [?x] => rewrite H
+  | H : ?x = false |- context [?x] => rewrite H
+  end.
+Ltac whead_eq :=
+  cbn [nsnd norm snd fst];
+  first [ reflexivity | solve [f_equal; mod_norm]
+        | wmodel_unfold; whyps;
+          repeat (match goal with |- context [if ?c then _ else _] => let C := fresh "C" in destruct c eqn:C end;
+                  cbn [negb] in *; try discriminate);
+          first [ reflexivity | solve [f_equal; mod_norm] | exfalso; lia ] ].
+Ltac witems :=
+  unfold wu8, wu16, wu32; wmodel_unfold; rewrite ?Z.sub_0_r;
+  repeat (rewrite fst_if; cbn [fst]);
+  rewrite ?if_same; rewrite <- ?app_assoc; cbn [app];
+  change (map nsnd ?l = map norm ?m) with (ieq l m);
+  repeat first
+    [ assumption
+    | apply ieq_nil
+    | apply ieq_cons; [ whead_eq | ]
+    | apply ieq_app
+    | apply ieq_if
+    | apply ieq_repeat; [ whead_eq | first [ reflexivity | lia ] ] ].
+Ltac wnd :=
+  repeat first
+    [ assumption
+    | apply nd_nil
+    | apply nd_cons; [ reflexivity | ]
+    | apply nd_app'
+    | apply nd_if
+    | apply nd_repeat; reflexivity ].
+Ltac wcount :=
+  first [ reflexivity
+        | apply f_equal; apply f_equal2; [ | reflexivity ];
+          wmodel_unfold; repeat (rewrite snd_if; cbn [snd fst]);
+          first [ reflexivity | lia
+                | repeat match goal with |- context [if ?c then _ else _] => destruct c end; lia ] ].
+Ltac wfinish :=
+  unfold wf_sim, wf_ok; cbn [fst snd]; rewrite ?app_nil_r;
+  split; [ wcount | split; [ witems | wnd ] ].
